@@ -5,12 +5,14 @@
    Model: Model/CodeData.v encode_code / Model/Blocks.v blocks_to_bytes, tied to the code by the
    correspondence run (full code objects for hand-built block graphs).  data_wf is a boolean evaluated on
    every generated datum by the check (group wf-monitor).  The clause "decoding the emitted code again gives
-   the data up to normalization" is decided by the oracle (it follows from this theorem with C02 and C06 on
-   the flattened stream, but that composition is not stated here). *)
+   the data up to normalization" is C03_emitted_code_is_in_the_decoder_domain + C03_redecode_gives_the_stream
+   (Proofs/Redecode1.v, Redecode.v): the re-decoded data reads as the input's flattened instruction stream,
+   constants up to key equality; block boundaries of hand-built data need not be the jump-target
+   partition, which is why the statement is on the stream and the oracle compares normal forms. *)
 From PCD Require Import Base.PyBase Base.Cfg Model.Args Model.Data Model.Consts Model.LineTable Model.Blocks
   Model.CodeData Spec.Lnotab Spec.Dis Model.ViewSer Proofs.C02_Statements Proofs.C01_Statements
   Proofs.C03_Statements Proofs.C03b_Statements Proofs.C03c_Statements Proofs.TablesReplay Proofs.TablesSound
-  Proofs.RelaxProofs Proofs.EncodeCorrect.
+  Proofs.RelaxProofs Proofs.EncodeCorrect Proofs.C06_Statements Proofs.C03d_Statements Proofs.Redecode.
 
 (* For every configuration and every well-formed datum without private override fields (constants paired
    with their encodings): the emitted code object is read back by CPython's disassembler and line reader
@@ -80,3 +82,28 @@ Theorem C03_override_collision_raises :
   In (a, Some i) l -> In (b, Some i) l -> keq a b = false -> add_all keq st0 l = Err ValueError.
 Proof. exact @collisions_raise. Qed.
 Print Assumptions C03_override_collision_raises.
+
+(* the code object emitted for well-formed data lies in the domain of the decoder theorem (C02): its
+   bytes, tables, jump targets and line table satisfy view_wf *)
+Theorem C03_emitted_code_is_in_the_decoder_domain : forall c (d : code_data_ pconst) code,
+  data_wf c d = true ->
+  encode_code c d = OK code ->
+  zlen (co_code code) < 1073741824 ->
+  exists kst : list pconst,
+    map snd kst = co_consts code /\
+    view_wf c code (map fst kst) = true.
+Proof. exact emitted_view_wf. Qed.
+Print Assumptions C03_emitted_code_is_in_the_decoder_domain.
+
+(* decoding the emitted code again gives data whose instruction stream is the input's: same opcodes,
+   same resolved operands (constants up to key equality), same jump structure, same lines *)
+Theorem C03_redecode_gives_the_stream : forall c (d : code_data_ pconst) code,
+  data_wf c d = true ->
+  encode_code c d = OK code ->
+  zlen (co_code code) < 1073741824 ->
+  exists kst : list pconst,
+    map snd kst = co_consts code /\
+    forall d2, decode_code c code (map fst kst) = OK d2 ->
+      view_agrees key_eqb (fst_view (data_view (cd_blocks d))) (data_view (cd_blocks d2)) = true.
+Proof. exact C03_redecode. Qed.
+Print Assumptions C03_redecode_gives_the_stream.
